@@ -265,6 +265,17 @@ def main():
     mn = re.search(r"for\s*\(idx,\s*map\)\s*in\s*dso_vec\.iter\(\)\.enumerate\(\)\s*\{\s*([^;]*;)", dd)
     if mn:
         name_fresh = "some true" if re.sub(r"\s+", " ", mn.group(1)).strip() == "let mut filename = String::new();" else "some false"
+    # DirSection::dump_dir_entry: the slot is set, the cursor advanced and the slot written on every path (no early return)
+    dsrc = read("src/dir_section.rs")
+    dir_adv = "none"
+    md_ = re.search(r"pub fn dump_dir_entry\(.*?\n    \}\n", dsrc, re.S)
+    if md_:
+        body = md_.group(0)
+        first = re.search(r"FileWriterError>\s*\{\s*([^;]*;)", body)
+        ok = (first is not None and re.sub(r"\s+", "", first.group(1)) == "self.section.set_value_at(buffer,dirent,self.curr_idx)?;"
+              and "self.curr_idx += 1;" in body and not re.search(r"\breturn\b", body) and len(re.findall(r"Ok\(\(\)\)", body)) == 1
+              and re.search(r"self\.destination\.write_all\(&buffer\[start\.\.end\]\)\?;", body) is not None)
+        dir_adv = "some true" if ok else "some false"
     out = []
     out.append("/- GENERATED by gen/extract.py from /repo's source — do not edit. -/")
     out.append("namespace Mdw.Src\n")
@@ -295,6 +306,7 @@ def main():
     out.append(f"\n/-- the loop of `app_memory::write` has no `continue` / `break` / early `Ok` return: every requested region is copied and recorded (none = not recognisable) -/\ndef appLoopNoSkip : Option Bool := {app_noskip}")
     out.append(f"\n/-- the link-map walk of `write_dso_debug_stream` stops at an address it has visited before (a HashSet tested in the loop condition) (none = not recognisable) -/\ndef linkWalkVisited : Option Bool := {walk_visited}")
     out.append(f"\n/-- every link-map entry's name starts as a fresh empty string inside the loop (none = not recognisable) -/\ndef linkNameFresh : Option Bool := {name_fresh}")
+    out.append(f"\n/-- `dump_dir_entry` sets the slot first, advances the cursor and writes the slot on every path: no early return (none = not recognisable) -/\ndef dirEntryAlwaysAdvances : Option Bool := {dir_adv}")
     out.append("\nend Mdw.Src\n")
     text = "\n".join(out)
     os.makedirs(os.path.dirname(OUT), exist_ok=True)
